@@ -3,10 +3,14 @@
   Property theorems only; helper lemmas live in ModVerif/Proofs/Modfile*.lean (the C02 development is
   ModVerif/Proofs/ModfileFmt*.lean).
   Status: stages 1–2 of DESIGN §6 C02 are proved for every input (lex_emits_TokOK, relex_one, tokens_relex,
-  autoQuote_single_token, unquote_quote, parseString_autoQuote); the three main statements are proved for
-  inputs without end-of-line comments (format_parse_syntax_partial, format_idempotent_partial,
-  format_preserves_directives_partial); the idempotence clause is FALSE in general
-  (C02_violated_format_not_idempotent).  What remains is listed in lean/PENDING.md.
+  autoQuote_single_token, unquote_quote, parseString_autoQuote); clauses 1 and 2 are proved for every accepted
+  input whose tree satisfies `EolCount` — end-of-line comments included, at most one per node
+  (format_parse_syntax_partial2, format_idempotent_partial2; the `_partial` versions are the special case
+  without end-of-line comments); clause 3 is proved under the same condition, `// indirect` markers included
+  (format_preserves_directives_partial2 and its go.work twin; nil fixer or idempotent non-empty fixer, no
+  retract with a fixer); the idempotence clause is FALSE in general
+  (C02_violated_format_not_idempotent, eol_single_comment_not_sufficient).  What remains is listed in
+  lean/PENDING.md.
 -/
 import ModVerif.Model.Modfile.Work
 import ModVerif.Proofs.ModfilePrint
@@ -14,6 +18,7 @@ import ModVerif.Proofs.ModfileFmtConserve
 import ModVerif.Proofs.ModfileFmtDir6
 import ModVerif.Proofs.ModfileFmtWork4
 import ModVerif.Proofs.ModfileFmtQuoteUnquote
+import ModVerif.Proofs.ModfileEolWork
 namespace ModVerif.Props.C02
 open ModVerif ModVerif.Modfile
 
@@ -390,5 +395,235 @@ theorem C02_violated_format_not_idempotent :
       simp only at h
       have := of_decide_eq_true h
       exact ⟨t, t', rfl, h2, this⟩
+
+/-! ### End-of-line comments (`// indirect`, …): the suffix-comment stage of clauses 1 and 2
+
+  Helper files `Proofs/ModfileEol*.lean`.  Stages: (i) the printer with its pending-comment queue computes a
+  pure render function; (ii) a printed line with its end-of-line comment lexes back to its tokens followed by
+  an END-OF-LINE comment token (classification preserved); (iii) the re-parse of the formatted text yields a
+  statement list in which every position is explicit and ordered as printed; (iv) the second
+  `assignComments` re-attaches every comment to the node it was printed after; then the two clauses under
+  the hypothesis `EolCount`.  `EolCount t` (a decidable counting condition on the parsed tree `t`): no line, `(`
+  or `)` carries more than one end-of-line comment (a block and its `)` share one slot), a comment block
+  carries none, and none is left over for the file header.  It holds unless some quoted token contains an
+  escaped newline — the one input shape on which clause 2 is FALSE (`C02_violated_format_not_idempotent`
+  below, and `eol_single_comment_not_sufficient`).  (`EolOK` = `EolCount` plus "a line that carries an
+  end-of-line comment has no newline byte inside its tokens", which every parsed tree satisfies:
+  `commented_line_one_source_line`.) -/
+
+open Proofs.ModfileEol in
+/-- ★ stage (i) `format_eq_render_eol`: what `Format` prints for a well-shaped tree with end-of-line comments
+    (at most one per node, none on a comment block) and without header comments, as a pure function of the tree
+    (`rStmtsE` = `rStmts` with ` //comment` appended to a line, to `verb (` and to `)`): the printer's
+    pending-comment queue (`Printer.comment`, filled by `queueSuffix`, flushed by `newline`) computes exactly
+    that. -/
+theorem format_eq_render_eol (f : FileSyntax) (hwf : EWFStmts f.stmts) (hc : f.comments.before = []) :
+    format f = rStmtsE f.stmts :=
+  format_eq_rStmtsE f hwf hc
+
+open Proofs.ModfileEol Proofs.ModfileFmtLex Proofs.ModfileFmtLine in
+/-- ★ stage (ii) `relex_line_eol`: a printed token line followed by its end — a newline, or ` //comment` and
+    a newline (`sufB cs R`) — lexes (from any state whose consumed/remaining split is the text `D`) to the
+    records of its tokens followed by the newline token resp. an END-OF-LINE comment token carrying the trimmed
+    text (`sufT`): the whole-line / end-of-line classification of the printed comment is preserved, the
+    comment is recorded with the position where its text starts, and every token record carries its start and
+    end position `pa D r` (= where the suffix `r` of `D` begins). -/
+theorem relex_line_eol {D : Bytes} (ws : Bytes) (hws : ∀ b ∈ ws, isBlank b = true) (ts : List Bytes) (hne : ts ≠ [])
+    (hts : ∀ t ∈ ts, TokText t) (cs : List Comment) (hcs : SufOK cs) {R : Bytes} {S : List Token}
+    (hS : LexesToE D .bol R S) (m : Mode) :
+    LexesToE D m (ws ++ (tokStr ts [] ++ sufB cs R)) (tokStrT D ts (sufB cs R) ++ sufT D cs R :: S) :=
+  lexesE_tokline ws hws ts hne hts cs hcs hS m
+
+open Proofs.ModfileEol in
+/-- ★ stage (iii): the formatted text of a well-shaped tree is `stmtsB f.stmts`; parsing it gives (before
+    comment assignment, up to line identities) the statement list `eStmts`, in which every position is
+    `pa D r` for an explicit suffix `r` of the formatted text `D` — so byte offsets are ordered as printed and
+    line numbers differ by the newlines in between — and the lexer records exactly the printed end-of-line
+    comments `stmtsC`, each with the position where its text starts. -/
+theorem reparse_positions (f : FileSyntax) (hwf : EWFStmts f.stmts) (hc : f.comments.before = []) :
+    format f = stmtsB f.stmts ∧
+    ∃ out i', parseFile (format f) = .ok (out, i') ∧ out.map zidE = eStmts (format f) f.stmts ∧
+      i'.commentsRev.reverse = stmtsC (format f) f.stmts :=
+  parseFile_rendered f hwf hc
+
+open Proofs.ModfileEol in
+/-- ★ stage (iv) `assign_reattach`: on that statement list and those comments, the backwards post-order walk
+    of `assignComments` (`end.byte ≤ c.start.byte`, nodes with `start.line ≠ end.line` skipped) gives every
+    line, `(` and `)` the comment that was printed after it (`aStmts`) and leaves none for the file header.
+    `NlOK`: a line that carries an end-of-line comment has no newline byte inside its tokens. -/
+theorem assign_reattach {D : Bytes} (name : Bytes) (ss : List Expr) (hwf : EWFStmts ss) (hnl : ∀ s ∈ ss, NlOK s)
+    (hD : D = stmtsB ss) :
+    assignComments { name := name, stmts := eStmts D ss } (stmtsC D ss) =
+      { name := name, comments := {}, stmts := aStmts D ss } :=
+  Proofs.ModfileEol.assign_reattach name ss hwf hnl hD
+
+open Proofs.ModfileEol in
+/-- In every parsed tree, a line that carries an end-of-line comment has no newline byte inside its tokens:
+    `assignComments` gives a comment only to a node with `start.line = end.line`, and a parsed line ends at
+    least as many source lines below its start as its tokens contain newline bytes
+    (`Proofs.ModfileEol.parseFile_ln`, from the C20 position facts).  Hence `EolOK` = `EolCount` for parsed
+    trees (`Proofs.ModfileEol.eolOK_of_count`). -/
+theorem commented_line_one_source_line {name x : Bytes} {t : FileSyntax} (h : parse name x = .ok t) :
+    ∀ s ∈ t.stmts, NlOK s :=
+  parse_nlOK h
+
+open Proofs.ModfileEol Proofs.ModfileFmtTree in
+/-- ★ `format_parse_syntax_partial2` — `format_parse_syntax` for every accepted input whose tree satisfies the
+    counting condition `EolCount` (strictly weaker than `NoEol`, see `eolCount_of_noEol`; end-of-line comments
+    on lines, after `verb (` and after `)` are covered, in particular `// indirect`).  The formatted output
+    parses again; the new tree is the old one in normal form — positions and line identities erased, every
+    comment text replaced by its `TrimSpace`, the comment of a one-line block `x ( ) // c` moved from the block
+    to its `)` (the only change of attachment side under `EolCount`) — and satisfies `EolCount` again.
+    `format_parse_syntax_reading` spells the equation out as "same statements, same tokens, same comment texts
+    in the same order".
+    Why a hypothesis: without it the statement is false — in `C02_violated_format_not_idempotent` the re-parsed
+    tree has an additional comment block.  `EolCount` is not the weakest possible hypothesis: several comments
+    on one line INSIDE a block or after `verb (`, and comments left over for the file header, also survive (with
+    a change of attachment side), see lean/PENDING.md. -/
+theorem format_parse_syntax_partial2 (name x : Bytes) (t : FileSyntax) (h : parse name x = .ok t) (hok : EolCount t) :
+    ∃ t', parse name (format t) = .ok t' ∧ eraseFile t' = normFileE t ∧ EolCount t' :=
+  format_parse_syntax_count name x t h hok
+
+open Proofs.ModfileEol Proofs.ModfileFmtTree in
+/-- the conclusion of `format_parse_syntax_partial2` in the words of the property: same name, same statements
+    (kind, header / line tokens, in order), same comment texts modulo `TrimSpace` in the same printing order -/
+theorem format_parse_syntax_reading {t t' : FileSyntax} (h : eraseFile t' = normFileE t) :
+    t'.name = t.name ∧ t'.stmts.map tokShape = t.stmts.map tokShape ∧
+      fileTexts t' = (fileTexts t).map GoStrings.trimSpace :=
+  same_syntax_of_normal_form h
+
+open Proofs.ModfileEol in
+/-- ★ `format_idempotent_partial2` — `format_idempotent` for every accepted input whose tree satisfies
+    `EolCount`.  Without such a hypothesis the statement is FALSE (`C02_violated_format_not_idempotent`); "no
+    node carries more than one end-of-line comment" alone is not enough either
+    (`eol_single_comment_not_sufficient`: the comment of a two-line line moves to a preceding comment block). -/
+theorem format_idempotent_partial2 (name x : Bytes) (t t' : FileSyntax) (h : parse name x = .ok t) (hok : EolCount t)
+    (h' : parse name (format t) = .ok t') : format t' = format t :=
+  format_idempotent_count name x t t' h hok h'
+
+open Proofs.ModfileEol Proofs.ModfileFmtConserve in
+/-- `NoEol` (the hypothesis of the `_partial` theorems) implies `EolCount` -/
+theorem eolCount_of_noEol {t : FileSyntax} (h : NoEol t) : EolCount t :=
+  eolCount_of_ok (Proofs.ModfileEol.eolOK_of_noEol h)
+
+/-- non-vacuity of `EolCount`: an accepted file with end-of-line comments on a top-level line, on block lines
+    (`// indirect`), after `verb (`, after `)` and after a one-line block, plus whole-line comments, a blank line
+    in a block, quoting and CRLF, satisfies it (`eolCountB` is the decidable form, `eolCountB_sound`) -/
+example :
+    let x := B "// doc\r\nmodule  \"example.com/m\" // c\n\nrequire ( // lp\n\ta.b/c v1.0.0 // indirect\n\n\t// why\n\td.e/f   v1.2.3\n\t// tail\n) // end\nx ( ) // e\n"
+    (match parse (B "go.mod") x with
+     | .ok t => Proofs.ModfileEol.eolCountB t
+     | .error _ => false) = true := by decide +kernel
+
+/-- … and both clauses on that file, by evaluation: the formatted output parses to a tree with the same
+    comment texts (trimmed) in the same order, and formats to the same bytes -/
+example :
+    let x := B "// doc\r\nmodule  \"example.com/m\" // c\n\nrequire ( // lp\n\ta.b/c v1.0.0 // indirect\n\n\t// why\n\td.e/f   v1.2.3\n\t// tail\n) // end\nx ( ) // e\n"
+    (match parse (B "go.mod") x with
+     | .ok t => (match parse (B "go.mod") (format t) with
+                 | .ok t' => decide (format t' = format t ∧
+                     Proofs.ModfileEol.fileTexts t' = (Proofs.ModfileEol.fileTexts t).map GoStrings.trimSpace)
+                 | .error _ => false)
+     | .error _ => false) = true := by decide +kernel
+
+/-- non-vacuity of the hypotheses of stages (i)–(iv) (`EWFStmts`, `NlOK`, no header comment) is
+    `Proofs.ModfileEol.parse_ewf`: every accepted input whose tree satisfies `EolCount` has them -/
+example (name x : Bytes) (t : FileSyntax) (h : parse name x = .ok t) (hok : Proofs.ModfileEol.EolCount t) :
+    Proofs.ModfileEol.EWFStmts t.stmts ∧ (∀ s ∈ t.stmts, Proofs.ModfileEol.NlOK s) ∧ t.comments = {} ∧ t.name = name :=
+  Proofs.ModfileEol.parse_ewf h (Proofs.ModfileEol.eolOK_of_count h hok)
+
+/-- The hypothesis "no node carries more than one end-of-line comment" alone does NOT make `Format` idempotent
+    (second manifestation of the known finding `C02_violated_format_not_idempotent`, same cause): here the
+    two-line line `x "a\⏎b"` is skipped by `assignComments` and its comment `// c1` becomes the (only) suffix
+    comment of the preceding comment block; `Format` prints it as ` // c1` on its own line, the re-parse makes
+    it a whole-line comment of `x`, and the next `Format` prints `// c1` without the blank.  This is why `EolCount`
+    requires comment blocks to carry no end-of-line comment. -/
+theorem eol_single_comment_not_sufficient :
+    ∃ t t', parse (B "go.mod") (B "// hello\n\nx \"a\\\nb\" // c1\n") = .ok t ∧
+      parse (B "go.mod") (format t) = .ok t' ∧ format t' ≠ format t ∧
+      format t = B "// hello\n // c1\nx \"a\\\nb\"\n" ∧ format t' = B "// hello\n// c1\nx \"a\\\nb\"\n" ∧
+      (∀ s ∈ t.stmts, Proofs.ModfileFmtConserve.sufCount s ≤ 1) := by
+  have h : (match parse (B "go.mod") (B "// hello\n\nx \"a\\\nb\" // c1\n") with
+      | .ok t => (match parse (B "go.mod") (format t) with
+          | .ok t' => decide (format t' ≠ format t ∧
+              format t = B "// hello\n // c1\nx \"a\\\nb\"\n" ∧ format t' = B "// hello\n// c1\nx \"a\\\nb\"\n" ∧
+              (∀ s ∈ t.stmts, Proofs.ModfileFmtConserve.sufCount s ≤ 1))
+          | .error _ => false)
+      | .error _ => false) = true := by decide +kernel
+  cases h1 : parse (B "go.mod") (B "// hello\n\nx \"a\\\nb\" // c1\n") with
+  | error e => rw [h1] at h; cases h
+  | ok t =>
+    rw [h1] at h
+    simp only at h
+    cases h2 : parse (B "go.mod") (format t) with
+    | error e => rw [h2] at h; cases h
+    | ok t' =>
+      rw [h2] at h
+      simp only at h
+      have := of_decide_eq_true h
+      exact ⟨t, t', rfl, h2, this⟩
+
+/-! ### Clause 3 with end-of-line comments (`// indirect`) -/
+
+open Proofs.ModfileEol in
+/-- `File.add` looks at a line (and at the block comments) only through its position (error messages), its
+    identity, `isIndirect` (for `require`) and the deprecation / rationale texts: from the same state, two lines
+    with the same `isIndirect` give the same directive values, the same number of errors and the same rewritten
+    arguments. -/
+theorem add_line_independent (st : AddState) (b b' : Option Comments) (l l' : Line) (verb : Bytes) (args : List Bytes)
+    (fix : Option Fixer) (strict : Bool)
+    (hind : (verb == B "require") = true → isIndirect l = isIndirect l') :
+    obs (File.add st b l verb args fix strict) = obs (File.add st b' l' verb args fix strict) :=
+  add_obs st b b' l l' verb args fix strict hind
+
+open Proofs.ModfileEol Proofs.ModfileFmtLex in
+/-- the `// indirect` marker survives formatting: `isIndirect` sees only the first end-of-line comment, and only
+    modulo `TrimSpace` of its text (`strings.Fields` ignores the trailing white space `TrimSpace` removes) -/
+theorem isIndirect_trimmed (l l' : Line) (c : Comment) (r r' : List Comment) (hc : CommentOK c.token)
+    (h : l.comments.suffix = c :: r) (h' : l'.comments.suffix = { c with token := GoStrings.trimSpace c.token } :: r') :
+    isIndirect l' = isIndirect l :=
+  isIndirect_trim l l' c r r' hc h h'
+
+open Proofs.ModfileFmtDir Proofs.ModfileEol in
+/-- ★ `format_preserves_directives_partial2` (strict go.mod) — clause 3 for inputs WITH end-of-line comments, in
+    particular `// indirect`: if the strict parser accepts `x` as a well-formed file `f` whose syntax tree
+    satisfies the counting condition `EolCount` (no line, `(` or `)` with more than one end-of-line comment, none
+    on a comment block, none left over for the header), then it accepts `Format(f.Syntax)`, and the directive
+    values — module path, go, toolchain, godebug, require WITH THE INDIRECT FLAG, exclude, replace, retract
+    intervals, tool — are identical; without a version fixer, or with a fixer that is idempotent on its image
+    and never returns the empty string, provided the file has no `retract` directive in that case.  Still
+    missing for the full statement: `fixRetract` with a fixer, fixers that return the empty string, and
+    `Module.Deprecated` / `Retract.Rationale` (see lean/PENDING.md). -/
+theorem format_preserves_directives_partial2 (name x : Bytes) (fix : Option Fixer) (f : Modfile.File)
+    (h : parseToFile name x fix true = .ok f) (hc : EolCount f.syn) (hwf : WellFormed f)
+    (hfix : FixOK fix) (hne : FixNE fix) (hret : fix ≠ none → f.retract = []) :
+    ∃ f', parseToFile name (format f.syn) fix true = .ok f' ∧ values f' = values f :=
+  format_preserves_directives_eol name x fix f h hc hwf hfix hne hret
+
+open Proofs.ModfileFmtDir Proofs.ModfileFmtWork Proofs.ModfileEol in
+/-- ★ `format_preserves_directives_work_partial2` (go.work) — the same for `ParseWork`: inputs with end-of-line
+    comments whose syntax tree satisfies `EolCount`. -/
+theorem format_preserves_directives_work_partial2 (name x : Bytes) (fix : Option Fixer) (f : WorkFile)
+    (h : parseWork name x fix = .ok f) (hc : EolCount f.syn) (hwf : WorkWellFormed f)
+    (hfix : FixOK fix) (hne : FixNE fix) :
+    ∃ f', parseWork name (format f.syn) fix = .ok f' ∧ workValues f' = workValues f :=
+  format_preserves_directives_work_eol name x fix f h hc hwf hfix hne
+
+/-- non-vacuity (go.mod, no fixer): a file with `// indirect` markers inside a block and on a top-level line, and
+    other end-of-line comments, is accepted as a well-formed file whose syntax tree satisfies `EolCount`; the
+    indirect flags are `[true, false, true]` -/
+example :
+    let x := B "module \"example.com/m\" // mod\ngo 1.21\nrequire (\n\t\"a.b/c\" v1 // indirect\n\td.e/f v1.2.3\n)\nrequire g.h/i v2.0.0+incompatible // indirect; why\nreplace a.b/c => \"./x y\" // r\n"
+    (match parseToFile (B "go.mod") x none true with
+     | .ok f => Proofs.ModfileFmtDir.wellFormedB f && Proofs.ModfileEol.eolCountB f.syn &&
+         decide (f.require.map (·.indirect) = [true, false, true])
+     | .error _ => false) = true := by decide +kernel
+
+/-- non-vacuity (go.work) -/
+example :
+    let x := B "go 1.21 // g\nuse (\n\t\"./x y\" // first\n\t./z\n) // done\nreplace a.b/c v1.2 => \"../c\" // r\n"
+    (match parseWork (B "go.work") x none with
+     | .ok f => Proofs.ModfileFmtWork.workWellFormedB f && Proofs.ModfileEol.eolCountB f.syn
+     | .error _ => false) = true := by decide +kernel
 
 end ModVerif.Props.C02
